@@ -31,7 +31,15 @@ type TOp struct {
 	F   string `json:"f"`
 	V   string `json:"v,omitempty"`
 	Nil bool   `json:"nil,omitempty"` // FormattedAs(f, nil): a nil value is still a write
+	Run bool   `json:"run,omitempty"` // run JSONFormatter.Process on the event: a write of the event's line under "json"
 }
+
+// the event of a table case is fixed, so the line a formatter run stores under json is this constant
+const tableLine = "{\"created_at\":\"1970-01-01T00:00:00Z\",\"event_type\":\"tbl\",\"payload\":null}\n"
+
+// the key alphabet of the format-table sequences: the well-known names, the empty name, names differing from them in case
+// or by surrounding white space, a non-ASCII, a control-character and a very long name
+var tableKeys = []string{"json", "", "JSON", "Json", " json", "json ", "cloudevents-json", "cloudevents-text", "text", "jsön", "日本", "a\tb", strings.Repeat("k", 300), "js"}
 
 func (o TOp) value() []byte {
 	if o.Nil {
@@ -49,6 +57,7 @@ type Case struct {
 	Type    string            `json:"type,omitempty"` // hex
 	Time    jgen.TimeSpec     `json:"time"`
 	Payload *jgen.Recipe      `json:"payload,omitempty"`
+	Ctx     int               `json:"ctx,omitempty"` // context handed to Process (jgen.MkContext)
 	NilTab  bool              `json:"nil_table,omitempty"`
 	Pre     []jgen.TableEntry `json:"pre,omitempty"`
 	Ops     []TOp             `json:"ops,omitempty"`
@@ -128,7 +137,9 @@ func runProc(c Case) (ret *retained, obs Obs, nontrivial bool) {
 				obs.Panic = fmt.Sprint(p)
 			}
 		}()
-		out, err = node.Process(context.Background(), e)
+		ctx, release, _ := jgen.MkContext(c.Ctx)
+		defer release()
+		out, err = node.Process(ctx, e)
 	}()
 	obs.Err = err != nil
 	if err != nil {
@@ -279,7 +290,7 @@ func runTable(c Case) (lit string, panicked string) {
 	for k, v := range formatted {
 		pre[k] = v
 	}
-	e := &el.Event{Formatted: formatted}
+	e := &el.Event{Type: "tbl", CreatedAt: time.Unix(0, 0).UTC(), Formatted: formatted}
 	ng := 1
 	for _, o := range c.Ops {
 		if o.G+1 > ng {
@@ -306,7 +317,10 @@ func runTable(c Case) (lit string, panicked string) {
 							r.done <- "None"
 						}
 					}()
-					if r.op.Set {
+					if r.op.Run {
+						_, _ = (&el.JSONFormatter{}).Process(context.Background(), e)
+						r.done <- "None"
+					} else if r.op.Set {
 						e.FormattedAs(r.op.F, r.op.value())
 						r.done <- "None"
 					} else {
@@ -323,7 +337,9 @@ func runTable(c Case) (lit string, panicked string) {
 		chans[o.G] <- r
 		res := <-r.done
 		id := jgen.FmtID(o.F, extra)
-		if o.Set {
+		if o.Run {
+			parts[i] = fmt.Sprintf("(%d, TSet 1 %s, %s)", o.G, jgen.Bytes([]byte(tableLine)), res)
+		} else if o.Set {
 			parts[i] = fmt.Sprintf("(%d, TSet %d %s, %s)", o.G, id, jgen.Bytes(o.value()), res)
 		} else {
 			parts[i] = fmt.Sprintf("(%d, TGet %d, %s)", o.G, id, res)
@@ -437,6 +453,7 @@ func genProc(em *emitter, r *hc.Rand, n, depth int, unencPermille int) {
 		c.Type = hex.EncodeToString(g.String(5))
 		c.Time = jgen.GenTime(r)
 		c.Payload = g.Payload(depth, unencPermille)
+		c.Ctx = jgen.GenCtx(r)
 		c.NilTab, c.Pre = jgen.GenPre(r, g)
 		em.emit(c)
 	}
@@ -456,7 +473,7 @@ func genGrid(em *emitter) {
 			for _, p := range payloads {
 				for _, t := range []jgen.TimeSpec{jgen.Times[2], jgen.BadTimes[0]} {
 					for tab := 0; tab < 3; tab++ {
-						c := Case{Gen: "grid", Kind: "proc", Node: node, Pred: pred, Type: hex.EncodeToString([]byte("t&1")), Time: t, Payload: p}
+						c := Case{Gen: "grid", Kind: "proc", Node: node, Pred: pred, Type: hex.EncodeToString([]byte("t&1")), Time: t, Payload: p, Ctx: (pred + tab) % jgen.CtxKinds}
 						switch tab {
 						case 0:
 							c.NilTab = true
@@ -482,10 +499,20 @@ func genStrings(em *emitter) {
 			ss = append(ss, []byte{lead, b1}, []byte{lead, b1, 0x80}, []byte{lead, b1, 0xBF, 0x80}, []byte{lead, b1, 0x80, 0x7F}, []byte{lead, b1, 0xA8}, []byte{lead, b1, 0xA9, 'x'})
 		}
 	}
+	// literal escape look-alikes, alone, doubled, and next to the characters the real escapes stand for
+	for _, a := range jgen.LookalikePieces() {
+		ss = append(ss, a, append(append([]byte("x"), a...), 'y'))
+		for _, b := range jgen.LookalikePieces() {
+			ss = append(ss, append(append([]byte{}, a...), b...))
+		}
+	}
 	for i, s := range ss {
 		c := Case{Gen: "strings", Kind: "proc", Node: []string{"formatter", "jff"}[i%2], Time: jgen.Times[1], Payload: &jgen.Recipe{K: "str", V: hex.EncodeToString(s)}}
 		if i%3 == 0 {
 			c.Type = hex.EncodeToString(s)
+		}
+		if i%4 == 1 { // also as a map key
+			c.Payload = &jgen.Recipe{K: "map", Ks: []string{hex.EncodeToString(s)}, E: []*jgen.Recipe{{K: "str", V: hex.EncodeToString(s)}}}
 		}
 		em.emit(c)
 	}
@@ -497,10 +524,15 @@ func genTable(em *emitter, r *hc.Rand, n int) {
 		c := Case{Gen: "table", Kind: "table"}
 		c.NilTab, c.Pre = jgen.GenPre(r, g)
 		ng := 1 + r.Intn(4)
-		names := []string{"json", "text", "cloudevents-json", "k" + hex.EncodeToString(g.String(1))}
+		names := append([]string{"k" + hex.EncodeToString(g.String(1))}, tableKeys...)
+		if r.Bool() { // a few names only, so that writes and reads meet
+			names = []string{"json", "", tableKeys[r.Intn(len(tableKeys))], tableKeys[r.Intn(len(tableKeys))]}
+		}
 		for j, m := 0, r.Intn(14); j < m; j++ {
 			o := TOp{G: r.Intn(ng), Set: r.Chance(1, 2), F: names[r.Intn(len(names))]}
-			if o.Set {
+			if r.Chance(1, 8) {
+				o = TOp{G: o.G, Run: true, F: "json"} // a formatter run in between
+			} else if o.Set {
 				switch r.Intn(6) {
 				case 0:
 					o.Nil = true // a nil value is still a written key
@@ -512,8 +544,33 @@ func genTable(em *emitter, r *hc.Rand, n int) {
 			}
 			c.Ops = append(c.Ops, o)
 		}
+		for _, k := range tableKeys { // finally every name of the alphabet is looked up, written or not
+			c.Ops = append(c.Ops, TOp{G: r.Intn(ng), F: k})
+		}
 		em.emit(c)
 	}
+}
+
+// write under k1 (or run the formatter), then look up k2: for all pairs of the key alphabet — a lookup sees exactly what was
+// stored under exactly that name, and nothing for a name never written
+func genTableKeys(em *emitter) {
+	for i, k1 := range tableKeys {
+		c := Case{Gen: "table-keys", Kind: "table", NilTab: i%2 == 0}
+		c.Ops = append(c.Ops, TOp{G: 0, Set: true, F: k1, V: hex.EncodeToString([]byte("v-" + fmt.Sprint(i)))})
+		for _, k2 := range tableKeys {
+			c.Ops = append(c.Ops, TOp{G: 1, F: k2})
+		}
+		c.Ops = append(c.Ops, TOp{G: 0, Set: true, F: k1, Nil: true})
+		for _, k2 := range tableKeys {
+			c.Ops = append(c.Ops, TOp{G: 1, F: k2})
+		}
+		em.emit(c)
+	}
+	c := Case{Gen: "table-keys", Kind: "table", NilTab: true, Ops: []TOp{{G: 0, Run: true, F: "json"}}}
+	for _, k2 := range tableKeys {
+		c.Ops = append(c.Ops, TOp{G: 1, F: k2})
+	}
+	em.emit(c)
 }
 
 // every short sequence over one name of: write nil / write empty / write bytes / read, on a nil, an empty and a populated
@@ -767,6 +824,7 @@ func main() {
 			genProc(em, r.Fork(), *nRandom, *depth, *unenc)
 		case "table":
 			genTableEdge(em)
+			genTableKeys(em)
 			genTable(em, r.Fork(), *nTable)
 		case "":
 		default:
